@@ -154,6 +154,26 @@ ASSUMPTIONS.append(
     "(R19.3 decides that they, and only they, carry the empty suffix); the "
     "requested files are the runner attribute assigned from conf.inputs in "
     "__init__; asserts are taken as guards (as elsewhere in the engine)")
+EXPLANATION += (
+    "  R19.50 (rules/c19_round5.py) decides, on the node loop of "
+    "deps_from_import_graph, that every node's emitted dependencies and every "
+    "stub-map entry receive all direct and stub-inherited source dependencies: "
+    "the four propagation sites are reached through complete loops (no break, "
+    "no slice), their own path conditions only de-duplicate against the target "
+    "or a container fresh in the iteration (or test presence in the stub map) "
+    "and read no state created outside the loop and changed inside it other "
+    "than the stub map, inheritance precedes the emit, and the stub map is "
+    "created outside the loop.  R19.51 decides that resolved_file_to_module "
+    "cuts the short path off the END of the resolved path (suffix-anchored "
+    "cut), stores that same short path as the target, and that "
+    "Module.full_path recomposes (path, target).  Not decided by them: the "
+    "split of file names into stubs and sources, closures and non-inlined "
+    "calls inside the node loop (taken not to change carried state).")
+ASSUMPTIONS.append(
+    "R19.51: importlab's ResolvedFile.path ends with its short_path (the "
+    "import root followed by the short path), so a suffix-anchored cut by "
+    "len(short_path) recomposes exactly; R19.50: list `+=`/extend/append copy "
+    "elements (no aliasing between a node's list and a stub-map entry)")
 
 RUN = "pytype/tools/analyze_project/pytype_runner.py"
 LOADER = "pytype/imports_map_loader.py"
